@@ -60,6 +60,20 @@ class SliceRef:
         return 'SliceRef(%d+%d)' % (self.start, self.len)
 
 
+class OpaqueSlice:
+    """&str / &[u8] whose content is not modelled and whose length is a term: only len / is_empty / as_bytes and being
+    handed to a stub are supported; any other use is a type error in the executor (-> inconclusive, never a verdict)"""
+    __slots__ = ('ident', 'length', 'is_str')
+
+    def __init__(self, ident, length, is_str=True):
+        self.ident = ident
+        self.length = length
+        self.is_str = is_str
+
+    def __repr__(self):
+        return 'OpaqueSlice(%s)' % self.ident
+
+
 class Poison:
     """value that could not be merged; any use is Unsupported"""
     __slots__ = ('why',)
@@ -132,6 +146,7 @@ BUILTIN_ENUMS = {
     'Option': ['None', 'Some'],
     'Result': ['Ok', 'Err'],
     'ControlFlow': ['Continue', 'Break'],
+    'Cow': ['Borrowed', 'Owned'],
     'AssertKind': ['Eq', 'Ne', 'Match'],
 }
 ORDERING = {'Less': (1 << 64) - 1, 'Equal': 0, 'Greater': 1}
@@ -1109,7 +1124,12 @@ class Interp:
         if e.tag == 'symenum':
             return e[0], e[1]
         if type(e[0]) is not int:
-            raise Unsupported('merge of an enum with symbolic discriminant and payload into a variant map')
+            # shared-payload form [d, fields..] with a symbolic discriminant: every feasible discriminant value sees the same
+            # fields (a variant without fields, like None, simply never reads them)
+            hi = T.umax(e[0], 64)
+            if hi > 8:
+                raise Unsupported('merge of an enum with an unbounded symbolic discriminant into a variant map')
+            return e[0], {k: self.mk(list(e[1:])) for k in range(hi + 1)}
         return e[0], {e[0]: self.mk(list(e[1:]))}
 
     def merge_enum(self, cond, a, b, ty):
@@ -1127,6 +1147,10 @@ class Interp:
             if k in va and k in vb:
                 fa, fb = va[k], vb[k]
                 if len(fa) != len(fb):
+                    if len(fa) == 0 or len(fb) == 0:
+                        # one side knows the variant has no fields (e.g. None); the other is the shared-payload form
+                        vm[k] = fa if len(fa) == 0 else fb
+                        continue
                     raise Unsupported('enum variant payload shapes differ')
                 ft = ftys.get(k, [None] * len(fa))
                 vm[k] = self.mk([self.merge(cond, x, y, t) for x, y, t in zip(fa, fb, ft + [None] * len(fa))])
@@ -1425,6 +1449,8 @@ class Interp:
     def unop(self, fr, op, a_op):
         a = self.operand(fr, a_op)
         if op == 'PtrMetadata':
+            if type(a) is OpaqueSlice:
+                return a.length
             if type(a) is SliceRef:
                 return a.len
             if type(a) is Ptr:
@@ -1485,7 +1511,8 @@ class Interp:
 
 
 APPEND = 'append'
-ITER_TAGS = {'Range', 'RangeIncl', 'StepBy', 'Rev', 'Chain', 'Enumerate', 'Skip', 'SliceIter', 'ArrIter', 'ChunksExact'}
+ITER_TAGS = {'Range', 'RangeIncl', 'StepBy', 'Rev', 'Chain', 'Enumerate', 'Skip', 'SliceIter', 'ArrIter', 'ChunksExact',
+             'Zip', 'Take', 'Copied', 'Chunks', 'Windows'}
 USIZE = parse_type('usize')
 
 
